@@ -29,6 +29,7 @@ CONSTANTS
     I64MAX, U64MAX,    \* the machine types in which arguments arrive (i64, u64 = usize)
     HALFM, QI, QU,     \* floor(MAXM/2), floor(I64MAX/MAXM), floor(U64MAX/MAXM): checked in ConstOK, not computed
     P62,               \* a quarter of 2^64 (a multiplier that wraps to 0 in 64 bits when times 4)
+    REPMAX,            \* the longest run of equal summands of a "long sum" (argument type "rep"); at least 2*(QU+1)
     BYTEBASE, NBYTES   \* native: 256 and 8 -- the fixed-width little-endian encodings
 
 Zero == Num(0)
@@ -80,6 +81,7 @@ ConstOK ==
     /\ DivOK(MAXM, Two, HALFM)
     /\ DivOK(I64MAX, MAXM, QI)
     /\ DivOK(U64MAX, MAXM, QU)
+    /\ LeqN(Plus(Plus(QU, QU), Two), REPMAX)    \* a long sum can carry the exact total past 2^64 twice
 
 \* ------------------------------------------------------------------ results
 Val(v)   == [t |-> "val", v |-> v]          \* Some(v) / Ok(v) / a plain return value
@@ -91,7 +93,8 @@ Unspecified == [t |-> "unspecified"]        \* never produced for well-typed arg
 \* ------------------------------------------------------------------ the public operations
 (* sig:  argument types  "i64" "u64" "mul" (a u64/usize multiplier) "nz64" (NonZeroU64) "pat" (8     *)
 (*       bytes, as their pattern number) "Z" "B" "oZ" "oB" (Option<..>) "seqZ" "seqB" (iterators)   *)
-(*       "raw" (any byte string)                                                                   *)
+(*       "raw" (any byte string)   "rep" (0..REPMAX: how many copies of the preceding amount an     *)
+(*       iterator yields -- the compact argument form of the long sums)                            *)
 (* res:  range of the result  "Z" 0..MAXM | "B" -MAXM..MAXM | "i64" | "u64"                         *)
 (* mode: what happens outside the range                                                            *)
 (*       "total"  cannot happen (theorem)            "enc"    total; the result is a byte pattern  *)
@@ -99,6 +102,18 @@ Unspecified == [t |-> "unspecified"]        \* never produced for well-typed arg
 (*       "res"    Err(Underflow below / Overflow above)       "io"  io::Error                      *)
 (*       "assert" documented panic                   "fold"   left fold of the checked addition    *)
 (*       "div" / "quotrem"  relational (DivOK / QuotRemOK)    "readn" see ReadSpec                  *)
+(*       "foldrep" the fold of  rep copies of the first amount, then the third  (RepFold)           *)
+(*                                                                                                *)
+(* Long sums.  An iterator sum has no bound on its length, so its exact total has no bound either:  *)
+(* it can exceed not only MAXM but the machine words i64 / u64 in which a single amount travels     *)
+(* (from QI + 1 resp. QU + 1 summands of MAXM on).  The rule is the same -- Some(exact total) iff    *)
+(* the total is a valid amount, None otherwise, never a panic, never the total reduced modulo 2^64  *)
+(* -- and  *.sum_rep / *.isum_rep / *.isum_ref_rep (v, n)  state it for the iterator that yields n  *)
+(* copies of v: the exact total is n * v.  For equal summands the running sums k * v (k <= n) are    *)
+(* monotone, so the left fold and the exact total coincide (theorem in MC_Amounts) and the         *)
+(* operation is functional ("opt").  *.rep_then (v, n, w) appends one more summand w, so that the   *)
+(* running sum can leave the range and come back: there both readings are allowed (RepOutcomes),    *)
+(* as for the short sums.                                                                          *)
 E(n, s, r, m) == n :> [sig |-> s, res |-> r, mode |-> m]
 Ops ==
     \* ---- ZatBalance
@@ -129,6 +144,12 @@ Ops ==
     @@ E("B.sum",                          <<"seqB">>,       "B",   "fold")    \* ZatBalance::sum
     @@ E("B.isum",                         <<"seqB">>,       "B",   "fold")    \* Sum<ZatBalance> for Option<ZatBalance>
     @@ E("B.isum_ref",                     <<"seqB">>,       "B",   "fold")    \* Sum<&ZatBalance>
+    @@ E("B.sum_rep",                      <<"B", "rep">>,   "B",   "opt")     \* ZatBalance::sum of rep copies
+    @@ E("B.isum_rep",                     <<"B", "rep">>,   "B",   "opt")     \* Sum<ZatBalance> of rep copies
+    @@ E("B.isum_ref_rep",                 <<"B", "rep">>,   "B",   "opt")     \* Sum<&ZatBalance> of rep copies
+    @@ E("B.sum_rep_then",                 <<"B", "rep", "B">>, "B", "foldrep") \* ZatBalance::sum of rep copies, then one more
+    @@ E("B.isum_rep_then",                <<"B", "rep", "B">>, "B", "foldrep") \* Sum<ZatBalance>
+    @@ E("B.isum_ref_rep_then",            <<"B", "rep", "B">>, "B", "foldrep") \* Sum<&ZatBalance>
     \* ---- Zatoshis
     @@ E("Z.zero",                         << >>,            "Z",   "total")   \* Zatoshis::ZERO
     @@ E("Z.from_u64",                     <<"u64">>,        "Z",   "res")
@@ -156,13 +177,16 @@ Ops ==
     @@ E("Z.mul_usize",                    <<"Z", "mul">>,   "Z",   "opt")     \* Mul<usize>
     @@ E("Z.isum",                         <<"seqZ">>,       "Z",   "fold")    \* Sum<Zatoshis> for Option<Zatoshis>
     @@ E("Z.isum_ref",                     <<"seqZ">>,       "Z",   "fold")    \* Sum<&Zatoshis>
+    @@ E("Z.isum_rep",                     <<"Z", "rep">>,   "Z",   "opt")     \* Sum<Zatoshis> of rep copies
+    @@ E("Z.isum_ref_rep",                 <<"Z", "rep">>,   "Z",   "opt")     \* Sum<&Zatoshis> of rep copies
     @@ E("Z.div",                          <<"Z", "nz64">>,  "Z",   "div")
     @@ E("Z.div_with_remainder",           <<"Z", "nz64">>,  "Z",   "quotrem")
     @@ E("Z.neg",                          <<"Z">>,          "B",   "total")   \* Neg for Zatoshis: Output = ZatBalance
 OpNames == DOMAIN Ops
 
-FunctionalModes == {"total", "enc", "opt", "res", "assert", "io", "lift", "fold"}
-FallibleModes == {"opt", "res", "assert", "io", "lift", "fold", "readn"}
+FunctionalModes == {"total", "enc", "opt", "res", "assert", "io", "lift", "fold", "foldrep"}
+FallibleModes == {"opt", "res", "assert", "io", "lift", "fold", "readn", "foldrep"}
+RepSumOps == {"B.sum_rep", "B.isum_rep", "B.isum_ref_rep", "Z.isum_rep", "Z.isum_ref_rep"}
 
 Lo(res) == CASE res = "Z" -> Zero [] res = "B" -> NegN(MAXM) [] res = "i64" -> I64MIN [] res = "u64" -> Zero
 Hi(res) == CASE res = "Z" -> MAXM [] res = "B" -> MAXM       [] res = "i64" -> I64MAX [] res = "u64" -> U64MAX
@@ -174,6 +198,7 @@ InType(t, v) == CASE t = "i64" -> InI64(v)
                   [] t = "nz64" -> Between(One, v, U64MAX)
                   [] t = "Z" -> InZ(v)
                   [] t = "B" -> InB(v)
+                  [] t = "rep" -> Between(Zero, v, REPMAX)
 BaseOf(t) == CASE t \in {"oZ", "seqZ"} -> "Z" [] t \in {"oB", "seqB"} -> "B"
 \* an argument as the specification sees it: a number | NoneR or Val(number) | a sequence of numbers
 WellTypedArg(t, a) ==
@@ -201,6 +226,7 @@ Math(op, x) ==
       [] op \in {"B.sub", "B.osub", "B.sub_z", "B.osub_z", "Z.sub", "Z.osub"} -> Minus(x[1], x[2])
       [] op \in {"B.neg", "Z.neg"} -> NegN(x[1])
       [] op \in {"B.mul_usize", "Z.mul_u64", "Z.mul_usize"} -> Times(x[1], x[2])
+      [] op \in RepSumOps -> Times(x[1], x[2])           \* the exact total of x[2] copies of x[1]
 
 Judge(mode, res, m) ==
     IF InRes(res, m) THEN Val(m)
@@ -226,6 +252,14 @@ TotalFrom(s, i) == IF i > Len(s) THEN Zero ELSE Plus(s[i], TotalFrom(s, i + 1))
 ExactTotal(res, s) == LET t == TotalFrom(s, 1) IN IF InRes(res, t) THEN Val(t) ELSE NoneR
 SumOutcomes(res, s) == {Fold(res, s), ExactTotal(res, s)}
 
+\* Long sums in closed form: n copies of v, then w.  The running sums are k * v (k <= n), which lie between
+\* zero and n * v, then n * v + w: the fold gets through the copies iff n * v is in range (theorem in
+\* MC_Amounts: RepFold = Fold and RepTotal = ExactTotal on the sequence written out).
+RepFold(res, v, n, w) == LET t == Times(v, n)
+                         IN  IF InRes(res, t) THEN Judge("opt", res, Plus(t, w)) ELSE NoneR
+RepTotal(res, v, n, w) == Judge("opt", res, Plus(Times(v, n), w))
+RepOutcomes(res, v, n, w) == {RepFold(res, v, n, w), RepTotal(res, v, n, w)}
+
 \* Zatoshis::read from a reader holding the bytes bs: fewer than 8 bytes is an io error, otherwise the
 \* first 8 are decoded
 ReadSpec(bs) == IF Len(bs) < NBYTES THEN Err("io") ELSE Judge("io", "Z", LEValue(bs))
@@ -236,6 +270,7 @@ Spec(op, x) ==
     IN  CASE e.mode \in {"total", "enc", "opt", "res", "assert", "io"} -> Judge(e.mode, e.res, Math(op, x))
           [] e.mode = "lift" -> IF x[1] = NoneR THEN NoneR ELSE Judge("lift", e.res, Math(op, <<x[1].v, x[2]>>))
           [] e.mode = "fold" -> Fold(e.res, x[1])
+          [] e.mode = "foldrep" -> RepFold(e.res, x[1], x[2], x[3])
           [] e.mode = "readn" -> ReadSpec(x[1])
 
 \* ------------------------------------------------------------------ the boundary lattice (DESIGN C09)
@@ -254,10 +289,18 @@ SeqsUpTo2(S) == {<< >>} \cup {<<a>> : a \in S} \cup {<<a, b>> : a \in S, b \in S
 Triples(S) == {<<a, b, c>> : a \in S, b \in S, c \in S}
 LatSeqZ == SeqsUpTo2(LatZ) \cup Triples({Zero, One, Minus(MAXM, One), MAXM})
 LatSeqB == SeqsUpTo2(LatB) \cup Triples({Zero, One, NegN(One), MAXM, NegN(MAXM)})
+\* lengths of long sums: short ones, then both sides of every machine-word boundary the exact total of
+\* copies of MAXM crosses: I64MAX (QI | QI+1), U64MAX (QU | QU+1), I64MAX + 2^64 (within one of QI+QU+1),
+\* 2 * 2^64 (2*(QU+1) is past it), and the longest
+LatRep == {Zero, One, Two, Num(3),
+           QI, Plus(QI, One), Plus(QI, Two), QU, Plus(QU, One), Plus(QU, Two),
+           Plus(QI, QU), Plus(Plus(QI, QU), One), Plus(Plus(QI, QU), Two),
+           Plus(Plus(QU, QU), Two), REPMAX}
 Lat(t) == CASE t = "i64" -> LatI64 [] t = "u64" -> LatU64 [] t = "mul" -> LatMul [] t = "nz64" -> LatDiv
             [] t = "pat" -> LatPat [] t = "Z" -> LatZ [] t = "B" -> LatB
             [] t = "oZ" -> {NoneR} \cup {Val(v) : v \in LatZ}
             [] t = "oB" -> {NoneR} \cup {Val(v) : v \in LatB}
             [] t = "seqZ" -> LatSeqZ [] t = "seqB" -> LatSeqB
+            [] t = "rep" -> LatRep
             [] t = "raw" -> {}
 =========================================================================================
